@@ -34,8 +34,8 @@ type ownCase struct {
 
 // clones, sub-alignments, site selections, and the other new objects the statement lists
 var alignProducers = []string{"clone", "clonebag", "subalign", "randsubalign-consecutive", "randsubalign-free", "selectsites", "seq-clone",
-	"bootstrap", "transpose", "unalign", "split", "consensus"}
-var bagProducers = []string{"clonebag", "seq-clone", "unalign"}
+	"bootstrap", "transpose", "unalign", "split", "consensus", "pwalign-sw", "pwalign-atg"}
+var bagProducers = []string{"clonebag", "seq-clone", "unalign", "pwalign-sw", "pwalign-atg"}
 
 // in-place mutations of a container
 var bagMuts = []string{"seqbyname-write", "rename-write", "setchar", "seqchar-write", "getchar-write", "getcharbyname-write", "iteratechar-write", "revcomp", "revcomp-row", "tolower", "toupper", "replace", "sort", "appendid", "seq-reverse", "seq-complement"}
@@ -262,69 +262,150 @@ func checkOwn(c ownCase) (o pbt.Outcome, err error) {
 	}
 
 	// ---- a copied container
-	var res align.SeqBag
 	var extra []align.SeqBag
-	var perr error
-	switch c.Producer {
-	case "clone":
-		var x align.Alignment
-		x, perr = al.Clone()
-		res = x
-	case "clonebag":
-		res, perr = src.CloneSeqBag()
-	case "subalign":
-		start := c.I
-		length := mod(c.J, l-start+1)
-		var x align.Alignment
-		x, perr = al.SubAlign(start, length)
-		res = x
-	case "randsubalign-consecutive", "randsubalign-free":
-		var x align.Alignment
-		x, perr = al.RandSubAlign(1+mod(c.J, l), c.Producer == "randsubalign-consecutive")
-		res = x
-	case "selectsites":
-		var x align.Alignment
-		x, perr = al.SelectSites(c.Ints)
-		res = x
-	case "bootstrap":
-		res = al.BuildBootstrap([]float64{1, 0.5, 1}[mod(c.J, 3)])
-	case "transpose":
-		var x align.Alignment
-		x, perr = al.Transpose()
-		res = x
-	case "unalign":
-		res = src.Unalign()
-	case "consensus":
-		res = al.Consensus(c.I%2 == 0, c.J%2 == 0)
-	case "split":
-		if l < 2 {
-			o.Skip = true
+	// a pairwise aligner lives as long as the case: every production asks the SAME aligner again
+	var pw align.PairwiseAligner
+	var nt align.SeqBag
+	if c.Producer == "codonalign" {
+		nt = ntFor(c.Ali, c.Seed, true)
+		extra = append(extra, nt)
+	}
+	if c.Producer == "pwalign-sw" || c.Producer == "pwalign-atg" {
+		// two non-empty rows (the aligner indexes the trace of an empty sequence and panics: outside
+		// this property, and a case with nothing to align)
+		var full []int
+		for i, r := range c.Ali.Rows {
+			if len(r.Seq) > 0 {
+				full = append(full, i)
+			}
+		}
+		if len(full) == 0 {
+			o.Class("pairwise alignment: only empty sequences")
 			return o, nil
 		}
-		ps := align.NewPartitionSet(l)
-		if c.J%2 == 0 {
-			ps.AddRange("p1", "m", 0, l-1, 2)
-			ps.AddRange("p2", "m", 1, l-1, 2)
-		} else {
-			k := 1 + mod(c.I, l-1)
-			ps.AddRange("p1", "m", 0, k-1, 1)
-			ps.AddRange("p2", "m", k, l-1, 1)
+		s1, _ := src.Sequence(full[mod(c.I, len(full))])
+		s2, _ := src.Sequence(full[mod(c.J, len(full))])
+		algo := align.ALIGN_ALGO_SW
+		if c.Producer == "pwalign-atg" {
+			algo = align.ALIGN_ALGO_ATG
 		}
-		var parts []align.Alignment
-		parts, perr = al.Split(ps)
-		if perr == nil && len(parts) == 2 {
-			res = parts[mod(c.I, 2)]
-			extra = append(extra, parts[1-mod(c.I, 2)])
+		pw = align.NewPwAligner(s1, s2, algo)
+	}
+	// produce runs the producer once more on the same source (call number k = 0, 1)
+	produce := func(k int) (res align.SeqBag, other align.SeqBag, perr error) {
+		switch c.Producer {
+		case "clone":
+			var x align.Alignment
+			x, perr = al.Clone()
+			res = x
+		case "clonebag":
+			res, perr = src.CloneSeqBag()
+		case "subalign":
+			start := c.I
+			length := mod(c.J, l-start+1)
+			var x align.Alignment
+			x, perr = al.SubAlign(start, length)
+			res = x
+		case "randsubalign-consecutive", "randsubalign-free":
+			var x align.Alignment
+			x, perr = al.RandSubAlign(1+mod(c.J, l), c.Producer == "randsubalign-consecutive")
+			res = x
+		case "selectsites":
+			var x align.Alignment
+			x, perr = al.SelectSites(c.Ints)
+			res = x
+		case "bootstrap":
+			res = al.BuildBootstrap([]float64{1, 0.5, 1}[mod(c.J, 3)])
+		case "transpose":
+			var x align.Alignment
+			x, perr = al.Transpose()
+			res = x
+		case "unalign":
+			res = src.Unalign()
+		case "consensus":
+			res = al.Consensus(c.I%2 == 0, c.J%2 == 0)
+		case "split":
+			ps := align.NewPartitionSet(l)
+			if c.J%2 == 0 {
+				ps.AddRange("p1", "m", 0, l-1, 2)
+				ps.AddRange("p2", "m", 1, l-1, 2)
+			} else {
+				k := 1 + mod(c.I, l-1)
+				ps.AddRange("p1", "m", 0, k-1, 1)
+				ps.AddRange("p2", "m", k, l-1, 1)
+			}
+			var parts []align.Alignment
+			parts, perr = al.Split(ps)
+			if perr == nil && len(parts) == 2 {
+				res = parts[mod(c.I, 2)]
+				other = parts[1-mod(c.I, 2)]
+			}
+		case "codonalign":
+			res, perr = al.CodonAlign(nt)
+		case "pwalign-sw", "pwalign-atg":
+			// scores of this call: the default ones or drawn ones (what a caller that re-aligns
+			// with other penalties does)
+			h := splitmix(uint64(c.Seed) + uint64(k))
+			if h%3 != 0 {
+				pw.SetGapOpenScore([]float64{-10, -3, -1, -100}[(h>>8)%4])
+				pw.SetGapExtendScore([]float64{-0.5, -1, -100}[(h>>16)%3])
+			}
+			if (h>>24)%3 == 0 {
+				pw.SetScore(2, -1)
+			}
+			var x align.Alignment
+			x, perr = pw.Alignment()
+			res = x
+		default:
+			panic("harness: unknown producer " + c.Producer)
 		}
-	case "codonalign":
-		nt := ntFor(c.Ali, c.Seed, true)
-		extra = append(extra, nt)
-		res, perr = al.CodonAlign(nt)
-	default:
-		panic("harness: unknown producer " + c.Producer)
+		return
+	}
+	if c.Producer == "split" && l < 2 {
+		o.Skip = true
+		return o, nil
+	}
+	res, other, perr := produce(0)
+	if pw != nil && perr != nil {
+		// letters that the substitution matrix does not know: the aligner refuses, nothing is produced
+		o.Class("pairwise alignment refused")
+		return o, nil
 	}
 	if perr != nil || res == nil {
 		return o, fmt.Errorf("harness: %s with valid arguments failed: %v", c.Producer, perr)
+	}
+	if other != nil {
+		extra = append(extra, other)
+	}
+	// ---- prior use: the producer is asked again on the same source / aligner. The first result is
+	// an object of its own: the second production, and writing into the second result, leave it as
+	// it was (and the second result does not move when the first one is written into: step 1 below)
+	first := snapshot(res)
+	res2, other2, perr2 := produce(1)
+	if d := first.diff(snapshot(res)); d != "" {
+		return o, fmt.Errorf("%s: producing a SECOND result from the same source changed the FIRST result: %s", c.Producer, d)
+	}
+	var second []align.SeqBag
+	if perr2 == nil && res2 != nil {
+		for k, m := range c.Muts {
+			applyMut(res2, m, c.Seed)
+			if d := first.diff(snapshot(res)); d != "" {
+				return o, fmt.Errorf("%s: mutation %d (%s) of the SECOND result changed the FIRST result: %s", c.Producer, k, m.Kind, d)
+			}
+		}
+		second = append(second, res2)
+		if other2 != nil {
+			second = append(second, other2)
+		}
+		if d := first.diff(snapshot(res)); d != "" {
+			return o, fmt.Errorf("%s: the FIRST result moved: %s", c.Producer, d)
+		}
+	} else if pw == nil {
+		return o, fmt.Errorf("harness: second %s with valid arguments failed: %v", c.Producer, perr2)
+	}
+	secondBefore := make([]snap, len(second))
+	for i, x := range second {
+		secondBefore[i] = snapshot(x)
 	}
 	_ = isAl
 	// the source(s): the receiver and every other object that must stay as it is (the nucleotide
@@ -342,6 +423,11 @@ func checkOwn(c ownCase) (o pbt.Outcome, err error) {
 			}
 			if d := sn.inconsistent(); d != "" {
 				return fmt.Sprintf("object %d: %s", i, d)
+			}
+		}
+		for i, x := range second {
+			if d := secondBefore[i].diff(snapshot(x)); d != "" {
+				return fmt.Sprintf("second result %d of the same producer: %s", i, d)
 			}
 		}
 		return ""
